@@ -32,27 +32,46 @@ ID = "C13"
 TITLE = ("Regularizers compute the documented Laplacian/torsion/Hessian/wrinkle "
          "penalties")
 RULE = ("Hypothesis draws either a Lattice case (shape of rank 1-4 with unequal "
-        "sizes, <= 256 vertices; thorough rank <= 5, <= 2048 vertices; units "
-        "1-3; Laplacian or torsion; l1 and l2 each zero, a scalar or a "
-        "per-dimension list with zeros in some dimensions; sizes/amounts "
-        "spelled as lists or tuples; entry point lattice_lib function, "
-        "regularizer class or Lattice layer loss) or a PWL case (kernel of 2-10 "
-        "rows, thorough <= 40, >= 3 for wrinkle; units 1-3; cyclic or not; "
-        "Laplacian, Hessian or wrinkle; scalar l1/l2; regularizer class or "
-        "PWLCalibration layer loss) and a kernel: the random array mixture "
-        "(scales 1e-6..1e6) or a kernel of the regularizer's vanishing class "
-        "(constant, additively separable, linear / quadratic in the index) with "
-        "exactly representable values.  The library value is compared with the "
-        "float64 loop reference; non-negativity, additivity in (l1, l2), "
-        "homogeneity under scaling of the amounts and the vanishing cases are "
-        "checked on the library's own values.  Non-trivial: some term with a "
-        "non-zero amount touches a non-zero kernel entry (or a non-zero "
-        "vanishing kernel under non-zero amounts); distinct by SHA-1 of the "
-        "case.")
+        "sizes, <= 256 vertices, rank >= 2 for most torsion cases, 1/8 of the "
+        "cases a rank 1-2 shape with a size 5-7; thorough rank <= 5, <= 2048 "
+        "vertices; units 1-4; Laplacian or torsion; l1 and l2 each zero, a "
+        "scalar or a per-dimension list with zeros in some dimensions; amounts "
+        "spelled as Python floats, ints, numpy float32 or float64 scalars; "
+        "sizes/amounts spelled as lists or tuples at every entry point; entry "
+        "point lattice_lib function, regularizer class or Lattice layer loss) "
+        "or a PWL case (kernel of 2-10 rows, 1/8 of the cases 11-16, thorough "
+        "<= 40, >= 3 for wrinkle; units 1-4; cyclic or not; Laplacian, Hessian "
+        "or wrinkle; scalar l1/l2 in the same spellings; regularizer class or "
+        "PWLCalibration layer loss).  At the layer entry points "
+        "kernel_regularizer is a single tuple, a single regularizer object or a "
+        "list of 2-3 items mixing tuples, tfl regularizer objects and Keras "
+        "L1 / L2 / L1L2 objects; the PWL layer has uniform or non-uniform "
+        "keypoints, fixed or learned_interior keypoints, monotonicity, bounds, "
+        "missing-value imputation, and regularizer objects whose own is_cyclic "
+        "differs from the layer's.  Kernels: the random array mixture (scales "
+        "1e-6..1e6), a kernel of the regularizer's vanishing class (constant, "
+        "additively separable, linear / quadratic in the index) with exactly "
+        "representable values, or a large common offset plus small integer "
+        "variation (exactly representable; judged relative to the differences, "
+        "not to the entries).  The library value is compared with the float64 "
+        "loop reference (a list of regularizers with the sum of the per-item "
+        "references); the function and class entry points are called eagerly, "
+        "inside a tf.function (1/16; the value compared with the reference) or "
+        "on a float64 kernel (1/8); non-negativity, additivity in (l1, l2), homogeneity under "
+        "scaling of the amounts and the vanishing cases are checked on the "
+        "library's own values.  Non-trivial: some term with a non-zero amount "
+        "touches a non-zero kernel entry (or a non-zero vanishing kernel under "
+        "non-zero amounts); distinct by SHA-1 of the case.")
 NT_FLOOR = 0.6
 BUDGET = {"quick": 900, "thorough": 10000}
 ASSUMPTIONS = [
-    "amounts are 0 or in [1e-6, 100] (non-negative, not denormal in float32)",
+    "amounts are 0 or in [1e-6, 100] (non-negative, not denormal in float32); "
+    "int and numpy-scalar spellings of the documented 'float' amounts are "
+    "taken to be valid",
+    "a regularizer object passed to a layer keeps its own is_cyclic / "
+    "lattice_sizes; only the tuple forms take them from the layer",
+    "Keras L1 / L2 / L1L2 objects in a regularizer list contribute "
+    "l1*sum|w| + l2*sum w^2 over the whole kernel (Keras documentation)",
     "kernel entries are bounded by 1e6 so that float32 squares do not overflow",
     "results below 1e-36*(terms+1)*(1+max amount) are not compared (float32 "
     "underflow of squares / flush-to-zero)",
@@ -70,22 +89,33 @@ LEVEL_TEXT = ("Generated-input exploration: thousands of random lattice shapes /
               "weighting / wrap-around mistakes; shows no absence.")
 LEVEL_NOTE = ("Trusted: TensorFlow/NumPy arithmetic, the harness.  Tolerance "
               "1e-4 * (sum over terms of amount * (sum |coef*entry|)^p), p=1 for "
-              "l1 and 2 for l2, plus a float32 underflow floor; vanishing cases "
-              "on exactly representable kernels are exact.  Sizes bounded as in "
-              "the rule; kernel entries <= 1e6.")
+              "l1 and 2 for l2, plus a float32 underflow floor; on the "
+              "offset-plus-small-integer kernels (all differences exact in "
+              "float32) the magnitude is |difference| instead of the sum of "
+              "|entries|; vanishing cases on exactly representable kernels are "
+              "exact.  Sizes bounded as in the rule; kernel entries <= 1e6 "
+              "(offset kernels <= 2^28).")
 
 # Tuple spellings of lattice_sizes / per-dimension amounts are documented
-# ("list or tuple") and therefore generated.
+# ("list or tuple") and therefore generated (at every entry point, the layer's
+# included: F-C13-1 is repaired).
 TUPLE_SPELLINGS = True
 
 AMOUNTS = [0.5, 1.0, 1.0, 2.0, 1e-3, 0.01, 10.0, 0.3]
+INT_AMOUNTS = [1, 1, 2, 3, 10]
+# spelling of the regularization amounts handed to the library.
+ATYPES = ["float", "float", "float", "float", "float", "int", "np32", "np64"]
 FACTORS = [0.25, 0.5, 2.0, 3.0, 10.0]
 LAT_ENTRIES = ["lib", "lib", "class", "class", "layer"]
 PWL_ENTRIES = ["class", "class", "layer"]
+KMODES = ["random", "random", "random", "vanish", "offset"]
+UNITS = [1, 1, 1, 2, 2, 3, 3, 4]
 
 
 # ---------------------------------------------------------------- strategies
-def _amount_value():
+def _amount_value(atype="float"):
+  if atype == "int":
+    return st.sampled_from(INT_AMOUNTS)
   return st.one_of(
       st.sampled_from(AMOUNTS),
       st.floats(min_value=1e-6, max_value=100.0, allow_nan=False,
@@ -96,48 +126,142 @@ PATTERNS = ["ss", "sz", "zs", "ll", "ls", "sl", "lz", "zl", "ss", "ll", "zz"]
 
 
 @st.composite
-def _amounts(draw, rank, lists):
+def _amounts(draw, rank, lists, atype="float"):
   """(l1, l2): each zero, a scalar or (lists only) a per-dimension list."""
   pat = draw(st.sampled_from(PATTERNS if lists else
                              ["ss", "sz", "zs", "ss", "sz", "zs", "ss", "zz"]))
+  zero = 0 if atype == "int" else 0.0
   res = []
   for mode in pat:
     if mode == "z":
-      res.append(0.0)
+      res.append(zero)
     elif mode == "s":
-      res.append(draw(_amount_value()))
+      res.append(draw(_amount_value(atype)))
     else:
-      res.append([draw(st.one_of(st.just(0.0), _amount_value(),
-                                 _amount_value())) for _ in range(rank)])
+      res.append([draw(st.one_of(st.just(zero), _amount_value(atype),
+                                 _amount_value(atype))) for _ in range(rank)])
   return res
+
+
+def _exec_mode(atype):
+  """How the function / class entry points are called: eagerly on a float32
+  kernel, inside a tf.function, or on a float64 kernel (numpy float32 amounts
+  are not combined with float64 kernels)."""
+  modes = ["eager"] * 13 + ["function"]
+  if atype != "np32":
+    modes += ["float64", "float64"]
+  return st.sampled_from(modes)
+
+
+@st.composite
+def _keras_item(draw):
+  return {"reg": "keras", "form": draw(st.sampled_from(["L1", "L2", "L1L2"])),
+          "l1": draw(_amount_value()), "l2": draw(_amount_value())}
+
+
+@st.composite
+def _lattice_extras(draw, rank, atype):
+  """Further items of a kernel_regularizer list (layer entry only)."""
+  items = []
+  for _ in range(draw(st.sampled_from([0, 0, 1, 1, 2]))):
+    kind = draw(st.sampled_from(["laplacian", "torsion", "torsion", "keras"]))
+    if kind == "keras":
+      items.append(draw(_keras_item()))
+    else:
+      l1, l2 = draw(_amounts(rank, True, atype))
+      items.append({"reg": kind, "l1": l1, "l2": l2,
+                    "form": draw(st.sampled_from(["tuple", "object"]))})
+  return items
 
 
 @st.composite
 def _lattice_case(draw, tier):
   big = tier == "thorough"
-  sizes = draw(S.lattice_sizes(max_rank=5 if big else 4,
-                               max_size=6 if big else 4,
-                               max_weights=2048 if big else 256))
-  units = draw(st.sampled_from([1, 1, 2, 3]))
+  reg = draw(st.sampled_from(["laplacian", "torsion"]))
+  # torsion of a rank-1 lattice is the documented trivial zero: kept rare.
+  min_rank = 2 if reg == "torsion" and draw(st.integers(0, 5)) > 0 else 1
+  if draw(st.integers(0, 7)) == 0:
+    # few dimensions, many vertices per dimension.
+    sizes = [draw(st.sampled_from([5, 6, 7]))]
+    if min_rank == 2 or draw(st.booleans()):
+      sizes.append(draw(st.integers(2, 6)))
+      if draw(st.booleans()):
+        sizes.reverse()
+  else:
+    sizes = draw(S.lattice_sizes(max_rank=5 if big else 4,
+                                 max_size=6 if big else 4,
+                                 max_weights=2048 if big else 256,
+                                 min_rank=min_rank))
+  units = draw(st.sampled_from(UNITS))
   n = int(np.prod(sizes))
   spell = "list"
   if TUPLE_SPELLINGS and draw(st.integers(0, 5)) == 0:
     spell = draw(st.sampled_from(["tuple_sizes", "tuple_amounts",
                                   "tuple_both"]))
   entry = draw(st.sampled_from(LAT_ENTRIES))
-  if entry == "layer":
-    spell = "list"
-  l1, l2 = draw(_amounts(len(sizes), True))
-  return {
+  atype = draw(st.sampled_from(ATYPES))
+  l1, l2 = draw(_amounts(len(sizes), True, atype))
+  case = {
       "family": "lattice",
-      "reg": draw(st.sampled_from(["laplacian", "torsion"])),
+      "reg": reg,
       "entry": entry, "spell": spell, "sizes": sizes, "units": units,
-      "l1": l1, "l2": l2,
-      "kmode": draw(st.sampled_from(["random", "random", "random", "vanish"])),
+      "l1": l1, "l2": l2, "atype": atype,
+      "kmode": draw(st.sampled_from(KMODES)),
       "kernel": draw(S.array_desc(shape=(n, units))),
       "factor": draw(st.sampled_from(FACTORS)),
       "aux": draw(S.seeds),
   }
+  if entry == "layer":
+    case["main_form"] = draw(st.sampled_from(["tuple", "tuple", "object"]))
+    case["extra"] = draw(_lattice_extras(len(sizes), atype))
+  else:
+    case["exec"] = draw(_exec_mode(atype))
+  return case
+
+
+@st.composite
+def _pwl_layer_opts(draw, nkp, cyclic_layer):
+  """Options of the PWLCalibration layer that carries the regularizer."""
+  opts = {"gaps": None, "start": 0.0, "kp_spell": "np", "kp_type": "fixed",
+          "mono": 0, "conv": 0, "omin": None, "omax": None, "impute": False}
+  if draw(st.integers(0, 3)) == 0:
+    return opts                      # the default layer
+  if draw(st.integers(0, 2)) > 0:
+    opts["gaps"] = [draw(st.sampled_from(S.SPACINGS)) for _ in range(nkp - 1)]
+    opts["start"] = draw(st.sampled_from([-100.0, -1.0, 0.0, 0.5, 10.0]))
+    opts["kp_spell"] = draw(st.sampled_from(["np", "list"]))
+  opts["kp_type"] = draw(st.sampled_from(["fixed", "learned_interior"]))
+  if not cyclic_layer:
+    opts["mono"] = draw(st.sampled_from([0, 1, -1, "increasing"]))
+    if opts["kp_type"] == "fixed":
+      opts["conv"] = draw(st.sampled_from([0, 0, 1, -1]))
+  bm = draw(st.sampled_from(["none", "min", "max", "both"]))
+  lo = draw(st.sampled_from([-10.0, 0.0, 0.5]))
+  if bm in ("min", "both"):
+    opts["omin"] = lo
+  if bm in ("max", "both"):
+    opts["omax"] = lo + draw(st.sampled_from([0.5, 1.0, 100.0]))
+  opts["impute"] = draw(st.booleans())
+  return opts
+
+
+@st.composite
+def _pwl_extras(draw, rows, cyclic_layer, atype):
+  items = []
+  kinds = ["laplacian", "hessian", "keras"] + (["wrinkle", "wrinkle"]
+                                               if rows >= 3 else [])
+  for _ in range(draw(st.sampled_from([0, 0, 1, 1, 2]))):
+    kind = draw(st.sampled_from(kinds))
+    if kind == "keras":
+      items.append(draw(_keras_item()))
+      continue
+    l1, l2 = draw(_amounts(1, False, atype))
+    form = draw(st.sampled_from(["tuple", "object"]))
+    items.append({"reg": kind, "l1": l1, "l2": l2, "form": form,
+                  # a tuple takes is_cyclic from the layer, an object has its own
+                  "cyclic": (cyclic_layer if form == "tuple" else
+                             draw(st.booleans()))})
+  return items
 
 
 @st.composite
@@ -147,21 +271,38 @@ def _pwl_case(draw, tier):
   hi = 40 if tier == "thorough" else 10
   rows = draw(st.one_of(st.sampled_from([lo, lo + 1, 4]),
                         st.integers(lo, hi)))
-  units = draw(st.sampled_from([1, 1, 2, 3]))
-  l1, l2 = draw(_amounts(1, False))
-  kmode = draw(st.sampled_from(["random", "random", "random", "vanish"]))
+  if draw(st.integers(0, 7)) == 0:
+    rows = draw(st.integers(11, max(16, hi)))
+  units = draw(st.sampled_from(UNITS))
+  atype = draw(st.sampled_from(ATYPES))
+  l1, l2 = draw(_amounts(1, False, atype))
+  kmode = draw(st.sampled_from(KMODES))
   # the linear / quadratic vanishing classes exist only without wrap-around.
-  cyclic = draw(st.sampled_from([False, True] if kmode == "random" else
+  cyclic = draw(st.sampled_from([False, True] if kmode != "vanish" else
                                 [False, False, False, True]))
-  return {
+  entry = draw(st.sampled_from(PWL_ENTRIES))
+  case = {
       "family": "pwl", "reg": reg,
-      "entry": draw(st.sampled_from(PWL_ENTRIES)),
+      "entry": entry,
       "rows": rows, "units": units, "cyclic": cyclic,
-      "l1": l1, "l2": l2, "kmode": kmode,
+      "l1": l1, "l2": l2, "atype": atype, "kmode": kmode,
       "kernel": draw(S.array_desc(shape=(rows, units))),
       "factor": draw(st.sampled_from(FACTORS)),
       "aux": draw(S.seeds),
   }
+  if entry == "layer":
+    form = draw(st.sampled_from(["tuple", "tuple", "object"]))
+    # the tuple form takes is_cyclic from the layer; a regularizer object
+    # keeps its own flag whatever the layer's is.
+    cyclic_layer = cyclic if form == "tuple" else draw(st.booleans())
+    case["main_form"] = form
+    case["layer_cyclic"] = cyclic_layer
+    case["layer"] = draw(_pwl_layer_opts(rows + (1 if cyclic_layer else 0),
+                                         cyclic_layer))
+    case["extra"] = draw(_pwl_extras(rows, cyclic_layer, atype))
+  else:
+    case["exec"] = draw(_exec_mode(atype))
+  return case
 
 
 def strategy(tier):
@@ -195,8 +336,12 @@ def _accumulate(acc, a1, a2, value, mag):
   acc[2] += 1
 
 
-def ref_lattice(reg, sizes, w, l1, l2):
-  """(value, magnitude bound, number of weighted terms); w (n, units) f64."""
+def ref_lattice(reg, sizes, w, l1, l2, exact=False):
+  """(value, magnitude bound, number of weighted terms); w (n, units) f64.
+
+  exact: every penalised difference is exactly representable in float32 (the
+  offset kernels), so the magnitude is |difference|, not the sum of |entries|.
+  """
   rank = len(sizes)
   strides = _strides(sizes)
   units = w.shape[1]
@@ -210,7 +355,8 @@ def ref_lattice(reg, sizes, w, l1, l2):
           if idx[d] + 1 >= sizes[d] or (a1[d] == 0.0 and a2[d] == 0.0):
             continue
           lo, hi = w[base, u], w[base + strides[d], u]
-          _accumulate(acc, a1[d], a2[d], hi - lo, abs(hi) + abs(lo))
+          _accumulate(acc, a1[d], a2[d], hi - lo,
+                      abs(hi - lo) if exact else abs(hi) + abs(lo))
   else:
     for i in range(rank - 1):
       for j in range(i + 1, rank):
@@ -226,7 +372,9 @@ def ref_lattice(reg, sizes, w, l1, l2):
             w10 = w[base + strides[i], u]
             w01 = w[base + strides[j], u]
             w11 = w[base + strides[i] + strides[j], u]
-            _accumulate(acc, p1, p2, w00 + w11 - w01 - w10,
+            twist = w00 + w11 - w01 - w10
+            _accumulate(acc, p1, p2, twist,
+                        abs(twist) if exact else
                         abs(w00) + abs(w11) + abs(w01) + abs(w10))
   return acc[0], acc[1], acc[2]
 
@@ -255,7 +403,7 @@ def _pwl_terms(reg, k, cyclic):
   return [3 * out(t + 1) - 3 * out(t + 2) - out(t) + out(t + 3) for t in rng]
 
 
-def ref_pwl(reg, x, cyclic, l1, l2):
+def ref_pwl(reg, x, cyclic, l1, l2, exact=False):
   k, units = x.shape
   acc = [0.0, 0.0, 0]
   terms = _pwl_terms(reg, k, cyclic)
@@ -266,7 +414,18 @@ def ref_pwl(reg, x, cyclic, l1, l2):
         if c[r]:
           value += float(c[r]) * x[r, u]
           mag += abs(float(c[r])) * abs(x[r, u])
-      _accumulate(acc, float(l1), float(l2), value, mag)
+      _accumulate(acc, float(l1), float(l2), value,
+                  abs(value) if exact else mag)
+  return acc[0], acc[1], acc[2]
+
+
+def ref_keras(form, w, l1, l2):
+  """Keras L1 / L2 / L1L2: l1 * sum|w| + l2 * sum w^2 over the whole kernel."""
+  a1 = float(l1) if form in ("L1", "L1L2") else 0.0
+  a2 = float(l2) if form in ("L2", "L1L2") else 0.0
+  acc = [0.0, 0.0, 0]
+  for v in w.reshape(-1):
+    _accumulate(acc, a1, a2, float(v), abs(float(v)))
   return acc[0], acc[1], acc[2]
 
 
@@ -306,7 +465,60 @@ def vanishing_kernel(case):
   return (k * scale).astype(np.float32), name
 
 
+def _item_vanishes(item, name):
+  """Does this list item vanish on a kernel of the named vanishing class?"""
+  reg = item["reg"]
+  if reg == "keras":
+    return False
+  if name == "constant":
+    return True
+  if name == "separable":
+    return reg == "torsion"
+  if item.get("cyclic"):
+    return False
+  return reg in (("hessian", "wrinkle") if name == "linear" else ("wrinkle",))
+
+
+def offset_kernel(case, shape):
+  """Large common offset + small integer variation, times a power of two.
+
+  Every entry, every sum of up to 40 entries and every penalised difference
+  is an integer below 2^24 times the power of two, i.e. exact in float32: the
+  library's differences carry no rounding error and a dropped or doubled
+  small term is far above the tolerance although it is tiny next to the
+  entries.
+  """
+  rs = np.random.RandomState(case["aux"])
+  units = shape[1]
+  offset = float(2 ** int(rs.choice([8, 12, 16])))
+  scale = float(2.0 ** int(rs.choice([-10, 0, 0, 3, 12])))
+  sign = rs.choice([-1.0, 1.0], size=(1, units))
+  small = rs.randint(-4, 5, size=shape).astype(np.float64)
+  return ((offset * sign + small) * scale).astype(np.float32)
+
+
 # ------------------------------------------------------------ library calls
+def _spell(v, atype):
+  """The amount as handed to the library (float / int / numpy scalar)."""
+  if isinstance(v, (list, tuple)):
+    return [_spell(x, atype) for x in v]
+  if atype == "int" and float(v).is_integer():
+    return int(v)
+  if atype == "np32":
+    return np.float32(v)
+  if atype == "np64":
+    return np.float64(v)
+  return float(v)
+
+
+def _value_of(v, atype):
+  """float64 value of the spelled amount (np.float32 rounds it)."""
+  s = _spell(v, atype)
+  if isinstance(s, list):
+    return [float(x) for x in s]
+  return float(s)
+
+
 def _spelled(case, l1, l2):
   sizes = list(case["sizes"])
   if case["spell"] in ("tuple_sizes", "tuple_both"):
@@ -323,38 +535,119 @@ def _scalar(v):
   return float(np.asarray(v))
 
 
-def library_value(case, k32, l1, l2):
+def _keras_object(item):
+  import tf_keras as keras
+  if item["form"] == "L1":
+    return keras.regularizers.L1(item["l1"])
+  if item["form"] == "L2":
+    return keras.regularizers.L2(item["l2"])
+  return keras.regularizers.L1L2(l1=item["l1"], l2=item["l2"])
+
+
+def _pwl_keypoints(opts, nkp):
+  if opts.get("gaps") is None:
+    return np.linspace(0.0, 1.0, nkp).astype(np.float32)
+  kp = [np.float32(opts["start"])]
+  for g in opts["gaps"]:
+    nxt = np.float32(float(kp[-1]) + g)
+    if nxt <= kp[-1]:
+      nxt = np.nextafter(kp[-1], np.float32(np.inf))
+    kp.append(nxt)
+  kp = np.asarray(kp, dtype=np.float32)
+  return [float(x) for x in kp] if opts.get("kp_spell") == "list" else kp
+
+
+def library_value(case, k32, l1, l2, trace=True):
+  """Library value with the main regularizer's amounts (l1, l2); the further
+  items of a layer's regularizer list keep their own amounts.  trace=False
+  evaluates a "function" case eagerly (tracing is expensive: only the value
+  that is compared with the reference goes through tf.function)."""
   import tensorflow as tf
   import tensorflow_lattice as tfl
-  x = tf.constant(k32)
+  mode = case.get("exec", "eager")
+  if mode == "function" and not trace:
+    mode = "eager"
+  x = tf.constant(k32.astype(np.float64) if mode == "float64" else k32)
+
+  def call(fn):
+    """fn(x) eagerly or traced into a graph by tf.function."""
+    if mode == "function":
+      return _scalar(tf.function(lambda t: tf.convert_to_tensor(
+          fn(t), dtype=t.dtype), autograph=False)(x))
+    return _scalar(fn(x))
+
   units, reg, entry = case["units"], case["reg"], case["entry"]
+  atype = case.get("atype", "float")
+  extras = case.get("extra") or []
+  main_form = case.get("main_form", "tuple")
+  l1, l2 = _spell(l1, atype), _spell(l2, atype)
   if case["family"] == "lattice":
     sizes, l1, l2 = _spelled(case, l1, l2)
+    classes = {"laplacian": tfl.lattice_layer.LaplacianRegularizer,
+               "torsion": tfl.lattice_layer.TorsionRegularizer}
     if entry == "lib":
       fn = (tfl.lattice_lib.laplacian_regularizer if reg == "laplacian" else
             tfl.lattice_lib.torsion_regularizer)
-      return _scalar(fn(x, sizes, l1=l1, l2=l2))
+      return call(lambda t: fn(t, sizes, l1=l1, l2=l2))
     if entry == "class":
-      cls = (tfl.lattice_layer.LaplacianRegularizer if reg == "laplacian" else
-             tfl.lattice_layer.TorsionRegularizer)
-      return _scalar(cls(lattice_sizes=sizes, l1=l1, l2=l2)(x))
+      return call(classes[reg](lattice_sizes=sizes, l1=l1, l2=l2))
+
+    def item_object(r, a1, a2, form):
+      if form == "object":
+        return classes[r](lattice_sizes=sizes, l1=a1, l2=a2)
+      return (r, a1, a2)
+
+    regs = [item_object(reg, l1, l2, main_form)]
+    for item in extras:
+      if item["reg"] == "keras":
+        regs.append(_keras_object(item))
+      else:
+        _, e1, e2 = _spelled(case, _spell(item["l1"], atype),
+                             _spell(item["l2"], atype))
+        regs.append(item_object(item["reg"], e1, e2, item["form"]))
     layer = tfl.layers.Lattice(lattice_sizes=sizes, units=units,
-                               kernel_regularizer=(reg, l1, l2))
+                               kernel_regularizer=(regs if len(regs) > 1 else
+                                                   regs[0]))
     d = len(sizes)
     layer.build((None, d) if units == 1 else (None, units, d))
     layer.kernel.assign(k32)
     return _scalar(layer.losses)
+  classes = {"laplacian": tfl.pwl_calibration_layer.LaplacianRegularizer,
+             "hessian": tfl.pwl_calibration_layer.HessianRegularizer,
+             "wrinkle": tfl.pwl_calibration_layer.WrinkleRegularizer}
   if entry == "class":
-    cls = {"laplacian": tfl.pwl_calibration_layer.LaplacianRegularizer,
-           "hessian": tfl.pwl_calibration_layer.HessianRegularizer,
-           "wrinkle": tfl.pwl_calibration_layer.WrinkleRegularizer}[reg]
-    return _scalar(cls(l1=l1, l2=l2, is_cyclic=case["cyclic"])(x))
-  nkp = case["rows"] + (1 if case["cyclic"] else 0)
+    return call(classes[reg](l1=l1, l2=l2, is_cyclic=case["cyclic"]))
+  cyclic_layer = case.get("layer_cyclic", case["cyclic"])
+  opts = case.get("layer") or {}
+
+  def item_object(r, a1, a2, form, cyclic):
+    if form == "object":
+      return classes[r](l1=a1, l2=a2, is_cyclic=cyclic)
+    if cyclic != cyclic_layer:
+      raise AssertionError("tuple regularizer with its own is_cyclic")
+    return (r, a1, a2)
+
+  regs = [item_object(reg, l1, l2, main_form, case["cyclic"])]
+  for item in extras:
+    if item["reg"] == "keras":
+      regs.append(_keras_object(item))
+    else:
+      regs.append(item_object(item["reg"], _spell(item["l1"], atype),
+                              _spell(item["l2"], atype), item["form"],
+                              item["cyclic"]))
+  nkp = case["rows"] + (1 if cyclic_layer else 0)
+  kwargs = {}
+  if opts:
+    kwargs = dict(input_keypoints_type=opts["kp_type"],
+                  monotonicity=opts["mono"], convexity=opts["conv"],
+                  output_min=opts["omin"], output_max=opts["omax"],
+                  impute_missing=opts["impute"])
   layer = tfl.layers.PWLCalibration(
-      input_keypoints=np.linspace(0.0, 1.0, nkp).astype(np.float32),
-      units=units, is_cyclic=case["cyclic"],
-      kernel_regularizer=(reg, l1, l2))
-  layer.build((None, units))
+      input_keypoints=_pwl_keypoints(opts, nkp),
+      units=units, is_cyclic=cyclic_layer,
+      kernel_regularizer=regs if len(regs) > 1 else regs[0], **kwargs)
+  layer.build([(None, units), (None, units)] if opts.get("impute") else
+              (None, units))
   if tuple(layer.kernel.shape) != k32.shape:
     raise AssertionError("PWL kernel shape %s != %s" % (layer.kernel.shape,
                                                        k32.shape))
@@ -383,25 +676,36 @@ def run_case(case):
   out = Outcome()
   fam, reg, units = case["family"], case["reg"], case["units"]
   l1, l2 = case["l1"], case["l2"]
+  atype = case.get("atype", "float")
+  extras = case.get("extra") or []
   lattice = fam == "lattice"
   shape = ((int(np.prod(case["sizes"])), units) if lattice else
            (case["rows"], units))
   vanish = None
+  exact = False
   if case["kmode"] == "vanish":
     k32, vanish = vanishing_kernel(case)
+  elif case["kmode"] == "offset":
+    k32, exact = offset_kernel(case, shape), True
   else:
     k32 = S.materialize(case["kernel"], shape)
   k64 = k32.astype(np.float64)
 
   out.label("%s:%s" % (fam, reg), "entry:" + case["entry"],
             "units:%d" % units, "amounts:l1=%s,l2=%s" % (_kind(l1), _kind(l2)),
-            "kernel:" + (case["kernel"]["kind"] if vanish is None else
-                         "vanish-" + vanish))
+            "kernel:" + ("offset" if exact else
+                         case["kernel"]["kind"] if vanish is None else
+                         "vanish-" + vanish),
+            "atype:" + atype, "exec:" + case.get("exec", "eager"))
   sig = dict(family=fam, reg=reg)
   if lattice:
     sizes = case["sizes"]
     out.label("rank:%d" % len(sizes), "spell:" + case["spell"],
               "sizes:" + ("equal" if len(set(sizes)) == 1 else "unequal"))
+    if max(sizes) >= 5:
+      out.label("sizes:some>=5")
+    if case["entry"] == "layer" and case["spell"] != "list":
+      out.label("layer-entry:" + case["spell"])
     for a in (l1, l2):
       if isinstance(a, list) and any(a) and not all(a):
         out.label("amounts:zeros-in-some-dims")
@@ -409,18 +713,71 @@ def run_case(case):
                list_amounts=isinstance(l1, list) or isinstance(l2, list))
   else:
     out.label("cyclic" if case["cyclic"] else "non-cyclic",
-              "rows:%s" % (case["rows"] if case["rows"] <= 4 else ">=5"))
+              "rows:%s" % (case["rows"] if case["rows"] <= 4 else
+                           ">=5" if case["rows"] <= 10 else ">10"))
     sig.update(cyclic=case["cyclic"])
+    if case["entry"] == "layer" and case.get("layer"):
+      opts = case["layer"]
+      if case.get("layer_cyclic", case["cyclic"]) != case["cyclic"]:
+        out.label("pwl-layer:object-is_cyclic-differs-from-layer")
+      out.label("pwl-layer:" + ("non-uniform-keypoints" if opts["gaps"]
+                                else "uniform-keypoints"),
+                "pwl-layer:" + opts["kp_type"])
+      if opts["mono"] != 0 or opts["conv"] != 0:
+        out.label("pwl-layer:monotonic-or-convex")
+      if opts["omin"] is not None or opts["omax"] is not None:
+        out.label("pwl-layer:bounded")
+      if opts["impute"]:
+        out.label("pwl-layer:impute_missing")
+  if case["entry"] == "layer" and "main_form" in case:
+    forms = [case["main_form"]] + [
+        "keras" if e["reg"] == "keras" else e["form"] for e in extras]
+    out.label("layer-regularizers:%d" % len(forms))
+    for f in sorted(set(forms)):
+      out.label("layer-regularizer-form:" + f)
+    if len(forms) > 1:
+      sig.update(multi=True)
+    for e in extras:
+      if not lattice and e["reg"] != "keras" and e["cyclic"] != case.get(
+          "layer_cyclic", case["cyclic"]):
+        out.label("pwl-layer:object-is_cyclic-differs-from-layer")
+        break
+
+  def ref_item(r, a1, a2, cyclic):
+    if r == "keras":
+      raise AssertionError
+    if lattice:
+      return ref_lattice(r, case["sizes"], k64, a1, a2, exact)
+    return ref_pwl(r, k64, cyclic, a1, a2, exact)
+
+  # the further items of a regularizer list: fixed amounts.
+  eref = [0.0, 0.0, 0]
+  for e in extras:
+    if e["reg"] == "keras":
+      part = ref_keras(e["form"], k64, e["l1"], e["l2"])
+    else:
+      part = ref_item(e["reg"], _value_of(e["l1"], atype),
+                      _value_of(e["l2"], atype), e.get("cyclic"))
+    eref = [eref[0] + part[0], eref[1] + part[1], eref[2] + part[2]]
+  emag = float(eref[1])
 
   def ref(a1, a2):
-    if lattice:
-      return ref_lattice(reg, case["sizes"], k64, a1, a2)
-    return ref_pwl(reg, k64, case["cyclic"], a1, a2)
+    """Reference of the whole list with main amounts (a1, a2)."""
+    v, m, n = ref_item(reg, _value_of(a1, atype), _value_of(a2, atype),
+                       case.get("cyclic"))
+    return v + eref[0], m + eref[1], n + eref[2]
+
+  calls = []
 
   def lib(a1, a2):
-    return library_value(case, k32, a1, a2)
+    calls.append(1)
+    return library_value(case, k32, a1, a2, trace=len(calls) == 1)
 
-  amax = max(_per_dim(l1, 1) + _per_dim(l2, 1))
+  amax = max(_per_dim(l1, 1) + _per_dim(l2, 1) +
+             [float(e[k]) for e in extras if e["reg"] == "keras"
+              for k in ("l1", "l2")] +
+             [x for e in extras if e["reg"] != "keras"
+              for k in ("l1", "l2") for x in _per_dim(e[k], 1)])
 
   def tol(mag, nterms, c=1.0):
     return TOL_F * mag + 1e-36 * (nterms + 1) * (1.0 + c * amax)
@@ -456,8 +813,10 @@ def run_case(case):
   err = abs(total - rv)
   out.info["err_over_tol"] = err / tol(rmag, nterms)
   if err > tol(rmag, nterms):
-    out.violate("%s %s regularizer returns %r, documented sum is %r "
-                "(tolerance %.3g)" % (fam, reg, total, rv, tol(rmag, nterms)),
+    out.violate("%s %s regularizer%s returns %r, documented sum is %r "
+                "(tolerance %.3g)" % (
+                    fam, reg, " (list of %d)" % (1 + len(extras)) if extras
+                    else "", total, rv, tol(rmag, nterms)),
                 kind="value", **sig)
   # ---- non-negativity (exact)
   out.checks += 1
@@ -465,36 +824,42 @@ def run_case(case):
     out.violate("regularizer value %r is negative" % total, kind="nonneg",
                 **sig)
   # ---- vanishing cases (exactly representable kernels: exact)
-  if vanish is not None:
+  if vanish is not None and all(_item_vanishes(e, vanish) for e in extras):
     out.checks += 1
     if total != 0.0:
       out.violate("%s %s regularizer is %r on a %s kernel" %
                   (fam, reg, total, vanish), kind="vanish", vanish=vanish,
                   **sig)
-  # ---- linearity in l1 and l2
+  # ---- linearity in l1 and l2 (of the main item; the further items of a
+  # list contribute the constant `rest`, measured on the library itself)
   if _is_zero(l1) and _is_zero(l2):
     return out
-  part1, part2 = lib(l1, 0.0), lib(0.0, l2)
+  zero = 0 if atype == "int" else 0.0
+  rest = lib(zero, zero) if extras else 0.0
+  part1, part2 = lib(l1, zero), lib(zero, l2)
   out.checks += 2
-  if part1 < 0 or part2 < 0:
-    out.violate("regularizer value %r / %r is negative" % (part1, part2),
-                kind="nonneg", **sig)
-  if abs(total - (part1 + part2)) > tol(rmag, nterms):
-    out.violate("R(l1,l2)=%r differs from R(l1,0)+R(0,l2)=%r+%r" %
-                (total, part1, part2), kind="additivity", **sig)
+  if part1 < 0 or part2 < 0 or rest < 0:
+    out.violate("regularizer value %r / %r / %r is negative" %
+                (part1, part2, rest), kind="nonneg", **sig)
+  if abs((total - rest) - ((part1 - rest) + (part2 - rest))) > tol(
+      rmag + 2 * emag, nterms):
+    out.violate("R(l1,l2)=%r differs from R(l1,0)+R(0,l2)=%r+%r (further "
+                "list items: %r)" % (total, part1, part2, rest),
+                kind="additivity", **sig)
   c = case["factor"]
   for which, amount, base in (("l1", l1, part1), ("l2", l2, part2)):
     if _is_zero(amount):
       continue
     # per-dimension torsion amounts enter as products: degree 2.
     degree = 2 if (reg == "torsion" and isinstance(amount, list)) else 1
-    a1, a2 = ((_scaled(amount, c), 0.0) if which == "l1" else
-              (0.0, _scaled(amount, c)))
+    a1, a2 = ((_scaled(amount, c), zero) if which == "l1" else
+              (zero, _scaled(amount, c)))
     scaled = lib(a1, a2)
     _, smag, _ = ref(a1, a2)
     out.checks += 1
-    if abs(scaled - c ** degree * base) > tol(smag, nterms, c):
+    if abs((scaled - rest) - c ** degree * (base - rest)) > tol(
+        smag + c ** degree * emag, nterms, c):
       out.violate("scaling %s by %g gives %r, expected %g * %r" %
-                  (which, c, scaled, c ** degree, base), kind="scaling",
-                  **sig)
+                  (which, c, scaled - rest, c ** degree, base - rest),
+                  kind="scaling", **sig)
   return out
